@@ -27,7 +27,7 @@ func zzRecordPayload(conn *zzRecConn, k int) ([]byte, bool) {
 	return nil, false
 }
 
-//verif:harness C01 wire_equals_inspected_hello unwind=4000 instrs=600000000 paths=60000 wall=900
+//verif:harness C01 wire_equals_inspected_hello unwind=4000 instrs=600000000 paths=400000 wall=3600
 //verif:stub (*math/rand.Rand).Shuffle zzStubShuffle
 //verif:expect end
 //verif:doc For every predefined parrot: BuildHandshakeState, then zero or one documented edit (SetClientRandom with 32 symbolic bytes; SetSNI; a symbolic cipher suite appended to Hello.CipherSuites; Hello.SessionId replaced by symbolic bytes; a GenericExtension with symbolic id and data inserted before a trailing pre_shared_key), then Handshake on a recording connection whose peer sends nothing: the payload of the first handshake record equals HandshakeState.Hello.Raw after Handshake returns, and the reference parser sees the edit in those bytes.
@@ -95,7 +95,7 @@ func zzC01WireEqualsInspectedHello() {
 }
 
 //verif:harness C01 raw_is_second_hello_after_hrr unwind=24 loopcut=1 instrs=600000000 paths=60000 wall=900
-//verif:stub (*math/rand.Rand).Shuffle zzStubShuffle
+//verif:stub (*math/rand.Rand).Shuffle zzStubShuffleIdentity
 //verif:stub (crypto.Hash).New zzStubHashNew
 //verif:stub (*utls.prng).Read zzStubPrngRead
 //verif:expect end
@@ -195,7 +195,7 @@ func specShareGroup(spec ClientHelloSpec, i int) CurveID {
 }
 
 //verif:harness C01 edits_visible_with_injected_psk unwind=4000 instrs=600000000 paths=40000 wall=900
-//verif:stub (*math/rand.Rand).Shuffle zzStubShuffle
+//verif:stub (*math/rand.Rand).Shuffle zzStubShuffleIdentity
 //verif:stub (crypto.Hash).New zzStubHashNew
 //verif:stub (*utls.cipherSuiteTLS13).finishedHash zzStubFinishedHash
 //verif:expect end
